@@ -20,6 +20,14 @@ class Unknown:
         return 'Unknown(%s)' % self.why
 
 
+class HostOpaque:
+    """module-level value computed from a host module (errno/signal/socket) that extraction could not
+    evaluate: everything read from it is a host symbol."""
+
+    def __init__(self, name):
+        self.name = name
+
+
 class Repo:
     def __init__(self, root='/repo', pkg='pykdebugparser'):
         self.root = root
@@ -89,8 +97,21 @@ class Repo:
             except (Unsupported, PyExc) as e:
                 names = _assigned_names(s)
                 self.dropped.append((m.name, getattr(s, 'lineno', 0), names, str(e)))
+                tainted = self._mentions_host(s, m)
                 for n in names:
-                    m.ns[n] = Unknown(str(e))
+                    m.ns[n] = HostOpaque('%s.%s' % (m.name.split('.')[-1], n)) if tainted else Unknown(str(e))
+
+    def _mentions_host(self, stmt, m):
+        for n in ast.walk(stmt):
+            if isinstance(n, ast.Name) and n.id in m.ns:
+                v = m.ns[n.id]
+                if isinstance(v, HostOpaque):
+                    return True
+                if isinstance(v, ModuleVal) and v.ns.get('$host'):
+                    return True
+                if getattr(v, 'kind', None) == 'host-enum':
+                    return True
+        return False
 
     def func(self, qual):
         """'pykdebugparser.kevent:from_kd_buf' or 'mod:Class.method' -> FuncVal"""
